@@ -116,6 +116,7 @@ func c18TourB(emailAuth bool) []tourStep {
 			return flows.TOTPConfirm(s, b, flows.TOTPCode(w, sec, 0)), sec != ""
 		}),
 		reqStep("logout(B1)", "", func(s *world.Stack, w *world.World) (world.Req, bool) { return flows.Logout(s, b), true }),
+		envStep(flows.Advance(61*time.Second)),
 		reqStep("login(B1,u1,pw)#pending", "", func(s *world.Stack, w *world.World) (world.Req, bool) { return flows.Login(s, b, U1, P1, false), true }),
 		reqStep("totp-validate(B1,wrong)", "", func(s *world.Stack, w *world.World) (world.Req, bool) { return flows.TOTPValidate(s, b, "000000", ""), true }),
 		reqStep("totp-validate(B1,code)", "", func(s *world.Stack, w *world.World) (world.Req, bool) {
